@@ -235,6 +235,9 @@ def _execute_concurrent(sc, tape, keep_events):
     res.digest = log.digest()
     res.tape = sched.tape_out
     res.steps = sched.steps
+    import hashlib
+
+    res.stats["schedule"] = hashlib.sha256(repr(sched.tape_out).encode()).hexdigest()[:16]
     res.stats["keys"] = n_ok
     res.stats["events"] = log.events if keep_events else None
     res.features = {"stratum": "concurrent"}
@@ -392,13 +395,17 @@ def execute(scenario, tape=None, keep_events=False):
 
 def merge_stats(agg, st, final=False):
     agg["keys"] = agg.get("keys", 0) + st.get("keys", 0)
+    agg.setdefault("schedules", set())
+    if "schedule" in st:
+        agg["schedules"].add(st["schedule"])
+    agg["schedules"] |= st.get("schedules", set())
 
 
 def finalise_stats(st):
     return {
         "keys_generated_and_checked": st.get("keys", 0),
-        "distinct_interleavings": None,
-        "distinct_interleavings_measure": "not applicable (no scheduler in this engine)",
+        "distinct_interleavings": len(st.get("schedules", ())) or None,
+        "distinct_interleavings_measure": "distinct schedule tapes in the concurrent-callers stratum (no scheduler in the other strata)",
     }
 
 
